@@ -252,7 +252,7 @@ def _note_array_and_tracks(b, rng):
         return {lo + 1} if x - lo > Fraction(1, 2) else {lo}
     for (ppq, mpq) in ((480, 500000), (96, 600000), (960, 250000), (480, 461538), (480, 700000), (384, 333333)):
         for notes, ctl in (([(60, 0, 1), (64, 0.5, 2.5), (60, 2, 4)], []), ([(60, 0, 1), (64, 0.5, 2.5), (60, 2, 4)], [(64, 0.5, 127), (64, 5, 0)]),
-                           ([(72, 0.013, 0.5), (30, 1.0004, 1.0004)], [(64, 0.2, 100)]), ([(60, 1.3, 2.9), (62, 601.125, 602.5), (64, 3599.77, 3600.01)], [])):
+                           ([(72, 0.013, 0.5), (30, 1.0004, 1.0004)], [(64, 0.2, 100)]), ([(60, 0.0, 0.0), (61, 1.25, 1.25), (62, 2.0, 2.0001)], []), ([(60, 1.3, 2.9), (62, 601.125, 602.5), (64, 3599.77, 3600.01)], [])):
             case = {"notes": notes, "controls": ctl, "ppq": ppq, "mpq": mpq}
             part = _mk_part(notes, ctl)
             part.ppq, part.mpq = ppq, mpq
@@ -267,9 +267,9 @@ def _note_array_and_tracks(b, rng):
                 if abs(row["duration_sec"] - (n["sound_off"] - n["note_on"])) > 1e-5 * (1 + abs(n["sound_off"])):
                     good, what = False, "duration_sec is not up to the sounding end"
                 if n["sound_off"] == n["note_off"]:
-                    off_t = round(Fraction(10**6 * ppq) * Fraction(n["note_off"]) / mpq)
-                    if abs(int(row["duration_tick"]) - (off_t - on_t)) > 1:
-                        good, what = False, "duration_tick disagrees with duration_sec although no pedal extends the note"
+                    allowed = {y - x for y in ticks(n["note_off"], ppq, mpq) for x in ticks(n["note_on"], ppq, mpq)}
+                    if int(row["duration_tick"]) not in allowed:
+                        good, what = False, "note %r..%r s: duration_tick %r, release tick minus onset tick is %r (no pedal extends the note)" % (n["note_on"], n["note_off"], int(row["duration_tick"]), sorted(allowed))
                 if (row["pitch"], row["velocity"]) != (n["midi_pitch"], n["velocity"]):
                     good, what = False, "pitch/velocity"
             b.case("note_array/seconds_ticks_agree_and_durations_to_sounding_end", good, case, what)
